@@ -239,11 +239,22 @@ func (c *Ctx) blockingDiscipline(table []bareOp, minSelects int) {
 	// bare operations
 	type k3 struct{ fn, kind, key string }
 	found := map[k3][]string{}
+	tabledKeys := map[k3]bool{}
+	for _, t := range table {
+		tabledKeys[k3{t.fn, t.kind, t.key}] = true
+	}
 	for _, s := range sites {
 		if s.kind == "select" {
 			continue
 		}
 		k := k3{c.nm(outermost(s.fn)), s.kind, s.key}
+		// a send outside the table that provably cannot block
+		if !tabledKeys[k] && s.kind == "send" {
+			if class, why, ok := c.autoBareSend(s); ok {
+				c.pass(fmt.Sprintf("bare %s on %s | %s", k.kind, k.key, k.fn), c.at(s.in), fmt.Sprintf("not tabled; derived class %s: %s", class, why), c.at(s.in))
+				continue
+			}
+		}
 		found[k] = append(found[k], c.at(s.in))
 	}
 	tabled := map[k3]bareOp{}
@@ -318,4 +329,235 @@ func (c *Ctx) cellKey(v ssa.Value) string {
 		return "local:" + short(mk.Type())
 	}
 	return "var:" + short(v.Type())
+}
+
+// ---- derived classes for bare sends that are not tabled ----
+
+// autoBareSend tries to prove that an untabled bare send cannot block, by one
+// of two arguments the tabled rows already use, derived here from the code:
+//
+//   - fresh buffer: the channel is made in the same function with a constant
+//     capacity >= 1, and no path reaches the send from another send on it,
+//     from a point where the channel (or a struct it was put into) was handed
+//     to other code, or from the send itself (a loop): the buffer is empty
+//     and nobody else can have filled it;
+//   - one reply per request: the channel is a field of a message the function
+//     has just received; every value ever stored into that field is a channel
+//     made with a constant capacity >= 1; this send is the only send on that
+//     field in the module and it is made at most once per received message
+//     (same loop nesting as the receive).
+func (c *Ctx) autoBareSend(s blockingSite) (string, string, bool) {
+	snd, ok := s.in.(*ssa.Send)
+	if !ok {
+		return "", "", false
+	}
+	fn := s.fn
+	ch := ir.Strip(snd.Chan)
+	if mk, ok := ch.(*ssa.MakeChan); ok {
+		if k, isC := ir.ConstInt(mk.Size); !isC || k < 1 || mk.Parent() != fn {
+			return "", "", false
+		}
+		// values the channel was put into (struct cells), transitively
+		holders := map[ssa.Value]bool{mk: true}
+		for changed := true; changed; {
+			changed = false
+			ir.Instrs(fn, func(in ssa.Instruction) {
+				st, ok := in.(*ssa.Store)
+				if !ok || !holders[ir.Strip(st.Val)] {
+					return
+				}
+				base := st.Addr
+				for {
+					switch a := base.(type) {
+					case *ssa.FieldAddr:
+						base = a.X
+						continue
+					case *ssa.IndexAddr:
+						base = a.X
+						continue
+					}
+					break
+				}
+				if al, ok := base.(*ssa.Alloc); ok && !holders[al] {
+					holders[al] = true
+					changed = true
+				}
+			})
+		}
+		held := func(v ssa.Value) bool {
+			return ir.DerivesFrom(v, func(x ssa.Value) bool { return holders[x] })
+		}
+		type danger struct {
+			in   ssa.Instruction
+			edge *ir.Edge // only behind this edge (select arm); nil: right after in
+		}
+		var dangers []danger
+		bad := false
+		ir.Instrs(fn, func(in ssa.Instruction) {
+			switch x := in.(type) {
+			case *ssa.Send:
+				if ir.Strip(x.Chan) == ssa.Value(mk) || held(x.X) {
+					dangers = append(dangers, danger{in, nil})
+				}
+			case *ssa.Select:
+				for i, st := range x.States {
+					if st.Dir != types.SendOnly {
+						continue
+					}
+					if ir.Strip(st.Chan) != ssa.Value(mk) && !held(st.Send) {
+						continue
+					}
+					found := false
+					for _, r := range ir.Refs(x) {
+						ex, isEx := r.(*ssa.Extract)
+						if !isEx || ex.Index != 0 {
+							continue
+						}
+						for _, ib := range ir.IntEqBranches(ex) {
+							if ib.K == int64(i) {
+								e := ib.Edge()
+								dangers = append(dangers, danger{in, &e})
+								found = true
+							}
+						}
+					}
+					if !found {
+						bad = true // the arm cannot be told apart: assume the worst
+					}
+				}
+			case *ssa.Store:
+				// stored somewhere that is not a local cell
+				if held(x.Val) {
+					base := x.Addr
+					for {
+						switch a := base.(type) {
+						case *ssa.FieldAddr:
+							base = a.X
+							continue
+						case *ssa.IndexAddr:
+							base = a.X
+							continue
+						}
+						break
+					}
+					if al, ok := base.(*ssa.Alloc); !ok || !holders[al] {
+						dangers = append(dangers, danger{in, nil})
+					}
+				}
+			case *ssa.MakeClosure:
+				for _, b := range x.Bindings {
+					if held(b) {
+						bad = true
+					}
+				}
+			default:
+				if cc := ir.CallOf(in); cc != nil {
+					if b, isB := cc.Value.(*ssa.Builtin); isB && (b.Name() == "len" || b.Name() == "cap") {
+						return
+					}
+					for _, a := range cc.Args {
+						if held(a) {
+							dangers = append(dangers, danger{in, nil})
+						}
+					}
+				}
+			}
+		})
+		if bad {
+			return "", "", false
+		}
+		for _, d := range dangers {
+			reached := false
+			visit := func(in ssa.Instruction) bool {
+				if in == s.in {
+					reached = true
+					return false
+				}
+				return true
+			}
+			if d.edge != nil {
+				ir.WalkEdge(*d.edge, nil, visit)
+			} else {
+				ir.WalkAfter(d.in, nil, visit)
+			}
+			if reached {
+				return "", "", false
+			}
+		}
+		return "fresh-buffer", "made here with constant capacity >= 1; nothing else can have sent on it before this send", true
+	}
+	// one reply per request
+	if !strings.HasPrefix(s.key, "field:") {
+		return "", "", false
+	}
+	// (1) every channel stored into the field has constant capacity >= 1
+	okCap, nMk := true, 0
+	for _, f := range c.P.Funcs {
+		ir.Instrs(f, func(in ssa.Instruction) {
+			st, ok := in.(*ssa.Store)
+			if !ok {
+				return
+			}
+			fa, ok := st.Addr.(*ssa.FieldAddr)
+			if !ok || c.fieldKey(fa.X.Type(), ir.FieldOfAddr(fa)) != s.key {
+				return
+			}
+			mk, isMk := ir.Strip(st.Val).(*ssa.MakeChan)
+			if !isMk {
+				okCap = false
+				return
+			}
+			nMk++
+			if k, isC := ir.ConstInt(mk.Size); !isC || k < 1 {
+				okCap = false
+			}
+		})
+	}
+	if !okCap || nMk == 0 {
+		return "", "", false
+	}
+	// (2) the only send on that field in the module
+	nSend := 0
+	for _, f := range c.P.Funcs {
+		ir.Instrs(f, func(in ssa.Instruction) {
+			switch x := in.(type) {
+			case *ssa.Send:
+				if c.chanKey(x.Chan) == s.key {
+					nSend++
+				}
+			case *ssa.Select:
+				for _, st := range x.States {
+					if st.Dir == types.SendOnly && c.chanKey(st.Chan) == s.key {
+						nSend++
+					}
+				}
+			}
+		})
+	}
+	if nSend != 1 {
+		return "", "", false
+	}
+	// (3) the message was received here, at the same loop nesting
+	recvd := false
+	ir.DerivesFrom(snd.Chan, func(x ssa.Value) bool {
+		in, isIn := x.(ssa.Instruction)
+		if !isIn {
+			return false
+		}
+		isRecv := false
+		switch y := x.(type) {
+		case *ssa.Select:
+			isRecv = true
+		case *ssa.UnOp:
+			isRecv = y.Op == token.ARROW
+		}
+		if isRecv && ir.LoopHeaderOf(in.Block()) == ir.LoopHeaderOf(s.in.Block()) {
+			recvd = true
+		}
+		return false
+	})
+	if !recvd {
+		return "", "", false
+	}
+	return "one-reply-per-request", fmt.Sprintf("every channel stored into %s is made with constant capacity >= 1 (%d allocation(s)); this is the only send on it in the module and it is made once per received message", s.key, nMk), true
 }
